@@ -339,6 +339,36 @@ def run_case(rep, RP, w):
         rep.case(repr(key), nontrivial=nontrivial_matrix(R))
         if w["metric"] == "supremum":
             sparse_compare(rep, RP, w, x, w["threshold"], mv, rp, R, miss, **kw)
+        else:
+            # sequential mode is documented for the supremum metric only: switched on for another metric (constructor
+            # keyword or the public attribute of a live plot) a line statistic is either refused (NotImplementedError) or
+            # describes this plot's own matrix - never silently the supremum plot
+            H = S.histograms(np.asarray(R), miss)
+            for how in ("attribute", "constructor"):
+                rep.case()
+                try:
+                    if how == "attribute":
+                        rp2 = RP(x, threshold=w["threshold"], metric=w["metric"], missing_values=mv, silence_level=3, **kw)
+                        rp2.sparse_rqa = True
+                    else:
+                        rp2 = RP(x, threshold=w["threshold"], metric=w["metric"], missing_values=mv, silence_level=3,
+                                 sparse_rqa=True, **kw)
+                except NotImplementedError:
+                    continue
+                except Exception as e:                               # noqa: BLE001
+                    rep.fail("sequential-other-metric/" + how, w, f"{type(e).__name__}: {e}")
+                    continue
+                for name, key in (("diagline_dist", "diag"), ("vertline_dist", "vert")):
+                    try:
+                        v = np.asarray(getattr(rp2, name)())
+                    except NotImplementedError:
+                        continue
+                    except Exception as e:                           # noqa: BLE001
+                        rep.fail("sequential-other-metric/" + how + "/" + name, w, f"{type(e).__name__}: {e}")
+                        continue
+                    if v.tolist() != H[key]:
+                        rep.fail("sequential-other-metric/" + how + "/" + name, w,
+                                 f"neither refused nor the histogram of this plot: got {v.tolist()} want {H[key]}")
     elif kind == "joint":
         # joint recurrence plot: the line statistics describe the CURRENT joint matrix, also after the plot was
         # re-thresholded on the same object through any of its setters
